@@ -124,6 +124,12 @@ def modified_paths(engine, body):
                     if fname and (ename == fname or ename.endswith("." + fname)) and getattr(efn, "modifies", None):
                         recv = _root_path(node.func.value) if isinstance(node.func, ast.Attribute) else None
                         for m in efn.modifies:
+                            if isinstance(m, int):
+                                # the m-th positional argument is mutated in place
+                                rp_arg = _root_path(node.args[m]) if m < len(node.args) else None
+                                if rp_arg is not None:
+                                    declared([".".join(rp_arg)])
+                                continue
                             if m.startswith("self.") and recv:
                                 declared([".".join(recv + tuple(m.split(".")[1:]))])
                             else:
@@ -157,7 +163,11 @@ def modified_paths(engine, body):
                     c = engine.resolve_method_contract(rp, meth)
                     if c is not None:
                         for m in c.modifies:
-                            paths.add(rp + tuple(m.split(".")))
+                            parts = m.split(".")
+                            if parts[0] == "self":
+                                parts = parts[1:]  # relative to the receiver
+                            paths.add(rp + tuple(parts))
+                            through_alias(rp + tuple(parts))
             elif isinstance(node, ast.Call) and isinstance(node.func, ast.Name):
                 c = engine.resolve_function_contract(node.func.id)
                 if c is not None:
